@@ -350,6 +350,14 @@ func recordOfClass(cls string, sep byte, k int) []byte {
 		return fill(70000)
 	case "m600k": // above half a MiB: the receive buffer a header channel keeps for it exceeds the size it shrinks from
 		return fill(600 << 10)
+	case "mSepLate": // a large record with the split byte far in: refused as a whole, nothing of it written
+		b := fill(200 << 10)
+		b[150<<10] = sep
+		return b
+	case "mSepEnd":
+		b := fill(100 << 10)
+		b[len(b)-1] = sep
+		return b
 	case "m1":
 		return fill(1<<20 + 1)
 	case "m5":
@@ -730,6 +738,7 @@ func TestFrames(t *testing.T) {
 			// ... and the sizes at which a header channel gives a large receive buffer up again: growing, shrinking, growing
 			seqs = append(seqs, []string{"m600k", "two", "b4097"}, []string{"one", "m600k", "empty", "m600k", "cr"}, []string{"m1", "b70000", "one", "m600k"})
 		}
+		seqs = append(seqs, []string{"one", "mSepLate", "two", "mSepEnd", "b4097"}, []string{"mSepEnd", "mSepLate", "hasSep", "one"})
 		for i, sq := range seqs {
 			if i%nshard != shard {
 				continue
